@@ -37,8 +37,7 @@ PLAN = dict(
                     "C08_sim_exec_heap, program level C08_codegen_simulates_partial (hypotheses h_frag, entry_int, lin_check_prog, ann_check_prog, "
                     "asm_wf, code_small, <= 14 parameters, length args = n, heap_fits: the run stays inside the 32 MiB heap region, decided by "
                     "fits_run), C08_codegen_correct_linearized_partial for outputs of the linearization pass, example with let/switch/shared and "
-                    "dropped objects/closure capturing an integer evaluated on both machines; objects with more than three fields (chains of "
-                    "blocks) are NOT covered by the simulation, for them rv_codegen_correct is stated only. Correspondence: model "
+                    "dropped objects/closure capturing an integer evaluated on both machines. Correspondence: model "
                     "instruction list = Rust instruction list (comments dropped), model rendering of the Rust list (comments kept) = Rust "
                     "routine text verbatim, Rust panic <=> model Err. Semantics: for print-free programs the Rust-emitted code run on "
                     "Sem/RVSem.v gives the observation of Sem/AxSem.run_linear for every argument tuple whose reference run exits or hits "
@@ -46,7 +45,17 @@ PLAN = dict(
                     "class=rv-capacity-panic, and the result equals that of the x86-64 code on Sem/X86Sem.v and of the AArch64 code on Sem/A64Sem.v (class=rv-x86-disagree, "
                     "class=rv-a64-disagree). "
                     "Programs with prints or beyond 14 live variables are SKIPped by the semantic step (print_i64 panics on this back end)."
-                " Round 4: asm_wf and code_small are theorems (C14_rv_compile_asm_wf, C14_rv_compile_code_small): C08_codegen_simulates_wf_partial / C08_codegen_correct_linearized_wf_partial take boolean guards on the program instead (labels_guard, imm_guard_rv = literals 64-bit, fewer than 2^61 xtors per type; size_guard); the table dispatch beyond the 12-bit ADDI immediate is repaired (LI X1; ADD: C08_rv_add_and_jump_big_sel; regression steps tag-dispatch-regression-* on corpus/c14/wide); h_frag remains",
+                " Round 4: asm_wf and code_small are theorems (C14_rv_compile_asm_wf, C14_rv_compile_code_small): C08_codegen_simulates_wf_partial / C08_codegen_correct_linearized_wf_partial take boolean guards on the program instead (labels_guard, imm_guard_rv = literals 64-bit, at most 512 xtors per type; size_guard); h_frag remains there."
+                " Round 5 (worker rvchain): the three-field bound is lifted. Memory layer at the chain level (Props/C09.v C09_rv_store = Heap.alloc_object, C09_rv_load = "
+                "Heap.load_object (nlinks n) p, any number of fields, both load modes; Proof/RVMemStoreChain.v, RVMemLoadChain.v; the abstract side shared with x86-64 / AArch64), "
+                "simulation layer re-done on the shared chained representation HRep.xrep (Proof/RVK*.v): C08_sim_store_chain, C08_sim_load_chain, C08_sim_let_all, C08_sim_switch_all, "
+                "C08_sim_create_captured_all, C08_sim_invoke_captured_all, C08_sim_exec_heap_all, and the program level for ALL statement forms: C08_codegen_simulates (hypotheses: entry_int, "
+                "lin_check_prog, ann_check_prog, labels_guard, imm_guard_rv, size_guard, rv_compile = Ok - which contains 'no print statement' and, RISC-V not spilling, that every context "
+                "fits the register file -, main_arity <= 14, length args = n, heap_fits), C08_codegen_simulates_asm_wf (asm_wf / code_small as hypotheses instead of the guards), "
+                "C08_codegen_correct_linearized. No fragment predicate is left: the 'every Switch has a clause' condition of h_frag is gone as well - the landing point of an Invoke is "
+                "established when the closure is invoked, and the induction proves that the code of every executed statement contains an instruction (an empty Switch emits a label only and "
+                "the RISC-V routine has no epilogue instruction behind `cleanup`); C08_codegen_simulates_empty_switch_example. Non-vacuity on a program outside h_frag: a five-field record "
+                "(two blocks) and a closure capturing four integers, hypotheses by vm_compute, theorem applied, both machines OExit 111106 (C08_codegen_simulates_example_*)",
         assumptions=[
             "the RV64 ISA model Sem/RVSem.v follows the RISC-V unprivileged specification and the assembler manual's pseudo-instruction "
             "expansions; it cannot be validated against hardware or an emulator in this environment (no RISC-V tool chain)",
